@@ -67,6 +67,12 @@ type Lifter struct {
 	// EncodeBebop writes, is folded the same way by SizeOf)
 	foldFixedSize bool
 	brPrefixVar string // byte decoder: the variable holding the record's length prefix
+	// byte writer that fills the length prefix in last: `at := 4` leaves a
+	// hole, iohelp.WriteUint32Bytes(buf, uint32(at-K)) directly before a
+	// `return at` fills it with (what that return reports) - K
+	bwHole    bool
+	bwPatched bool
+	bwPatchK  []int
 	Safe    bool     // reader: checks are required
 	// RecClass maps the Go name of a nested record type to "struct", "message"
 	// or "union" ("" = unknown); supplied by the caller from the schema it built.
